@@ -82,6 +82,7 @@ var registry = map[string]propDef{
 	"C06s": {"other", props.C06prg},
 	"C18p": {"other", props.C18pack},
 	"C18n": {"other", props.C18length},
+	"C18m": {"other", props.C18limit},
 	"C07":  {"other", props.C07},
 	"C07b": {"other", props.C07bitwise},
 	"C07p": {"other", props.C07prefix},
